@@ -17,7 +17,8 @@ META = {
         assumptions=COMMON_ASSUME,
         required=['steps_monitored', 'guard_probes', 'rule_priority_preempt', 'rule_inner_first_prune',
                   'rule_eventless_preempts_pending_event'],
-        gen=dict(p_guard=0.75, max_trans=18, min_trans=5),
+        modes=[('select', 7, dict(p_guard=0.75, max_trans=18, min_trans=5)), ('clash', 1, dict(p_guard=0.6)),
+               ('orth', 2, dict(p_orth=0.45, p_guard=0.7))],
     ),
     'C02': dict(
         rule='Same driver, charts biased to orthogonal content and to transitions that enter states nested in regions '
@@ -28,7 +29,8 @@ META = {
         assumptions=COMMON_ASSUME,
         required=['steps_monitored', 'configs_with_orthogonal_active', 'region_descendant_entered_from_outside',
                   'c02_post_final_steps'],
-        gen=dict(p_orth=0.45, p_final=0.3),
+        modes=[('legal', 5, dict(p_orth=0.45, p_final=0.3)), ('history', 3, dict(p_hist=0.8, p_orth=0.4, p_compound=0.45, min_states=6)),
+               ('orth', 2, dict(p_orth=0.5, p_hist=0.4))],
     ),
     'C03': dict(
         rule='Every state and transition carries entry/exit/action probes; after every step the probe log must equal '
@@ -39,7 +41,8 @@ META = {
              'transitions, an exit list of >= 3 states, or an orthogonal state entered/exited.',
         assumptions=COMMON_ASSUME + ['order between cousins / between default entries of different branches is not judged'],
         required=['steps_monitored', 'c03_trace_checks', 'c03_multi_transition_steps', 'c03_orth_sibling_lists'],
-        gen=dict(p_orth=0.5, max_trans=16, p_state_send=0.15),
+        modes=[('order', 6, dict(p_orth=0.5, max_trans=16, p_state_send=0.15)), ('legal', 2, dict(p_orth=0.45)),
+               ('history', 2, dict(p_hist=0.7, p_orth=0.4, p_state_send=0.15))],
     ),
     'C04': dict(
         rule='"clash" charts (duplicated triggers, same-source transitions under orthogonal parents / on the root, '
@@ -49,7 +52,7 @@ META = {
              'pair class) with >= 2 selected transitions.',
         assumptions=COMMON_ASSUME,
         required=['steps_monitored', 'expected_error_steps'],
-        gen=dict(p_orth=0.4, p_guard=0.4),
+        modes=[('clash', 8, dict(p_orth=0.4, p_guard=0.4)), ('orth', 2, dict(p_orth=0.5, p_guard=0.3))],
     ),
     'C05': dict(
         rule='Every queued/sent event carries a unique id; a two-queue model (due time, insertion order) predicts the '
@@ -59,7 +62,7 @@ META = {
         assumptions=COMMON_ASSUME + ['negative delays excluded (W10)'],
         required=['steps_monitored', 'events_consumed', 'c05_drained_runs', 'c05_internal_before_due_external',
                   'c05_equal_due_tie', 'c05_due_exactly_now', 'c05_external_while_internal_not_due'],
-        gen=dict(p_send=0.5, p_state_send=0.15, p_notify=0.15),
+        modes=[('queue', 8, dict(p_send=0.5, p_state_send=0.15, p_notify=0.15)), ('orth', 2, dict(p_send=0.5, p_orth=0.45))],
     ),
     'C06': dict(
         rule='history-heavy charts; the model records what was active under each history parent at its last exit '
@@ -69,6 +72,7 @@ META = {
         assumptions=COMMON_ASSUME,
         required=['steps_monitored', 'c06_restores', 'c06_non_default_restores', 'c06_default_memory_restores',
                   'c06_deep_restores_3plus'],
-        gen=dict(p_hist=0.8, p_compound=0.55, p_orth=0.25, min_states=5),
+        modes=[('history', 6, dict(p_hist=0.8, p_compound=0.55, p_orth=0.25, min_states=5)),
+               ('history', 4, dict(p_hist=0.8, p_compound=0.4, p_orth=0.45, min_states=7))],
     ),
 }
